@@ -278,7 +278,7 @@ Definition settle (cf : acfg) (lk : locked) (L : ledger) (xf : Z) : outcome (led
     do L1 <- oerr 13 (send L AUC_D POOL_D (l_target lk));
     Ok (L1, xf).
 
-Definition place_bid (cf : acfg) (lk : locked) (a : auction) (s : bstate)
+Definition place_bid_core (cf : acfg) (lk : locked) (a : auction) (s : bstate)
            (who amt0 : Z) (wrong_denom : bool) (twa_d : Z)
   : outcome (bstate * option auction * bidres) :=
   if amt0 <=? 0 then Err 1 else                       (* ValidateBasic / ErrBidCannotBeZero *)
@@ -353,6 +353,21 @@ Record life := mkLife {
   f_top : Z               (* ghost: sum of reserve transfers *)
 }.
 
+(* PlaceDutchAuctionBid as a whole (bid.go:15-40, after fix 3349d05): the arithmetic and settlement
+   core above runs only when the debt asset's oracle record is found and active
+   ([dact] = found && IsPriceActive); otherwise the bid is refused with ErrorPriceNotFound before
+   anything is computed.  The guard stands after the zero-amount and denomination checks, which
+   the core repeats (they pass), so the wrapper is exactly the handler.  An erroring bid leaves the
+   state unchanged, hence the history semantics [step] (whose [Bid]s are core bids) needs no case
+   for a refused bid. *)
+Definition place_bid (cf : acfg) (lk : locked) (a : auction) (s : bstate)
+           (who amt0 : Z) (wrong_denom dact : bool) (twa_d : Z)
+  : outcome (bstate * option auction * bidres) :=
+  if amt0 <=? 0 then Err 1 else
+  if wrong_denom then Err 2 else
+  if negb dact then Err 9 else                        (* ErrorPriceNotFound *)
+  place_bid_core cf lk a s who amt0 wrong_denom twa_d.
+
 Definition step (cf : acfg) (lk : locked) (f : life) (o : op) : life :=
   match f_a f with
   | None => f                                          (* GetAuction fails; the iterator skips it *)
@@ -360,7 +375,7 @@ Definition step (cf : acfg) (lk : locked) (f : life) (o : op) : life :=
       match o with
       | Tick now pc pd => mkLife (f_s f) (Some (tick cf lk now pc pd a)) (f_paid f) (f_recv f) (f_top f)
       | Bid who amt wd twa =>
-          match place_bid cf lk a (f_s f) who amt wd twa with
+          match place_bid_core cf lk a (f_s f) who amt wd twa with
           | Ok (s', a', r) =>
               mkLife s' a' (f_paid f + r_paid r) (f_recv f + r_recv r) (f_top f + r_topup r)
           | _ => f                                     (* the message's cache context is dropped *)
